@@ -55,8 +55,8 @@ func linStep(state, input, output any) (bool, any) {
 		if in.Kind == KComputeIfPresent && in.Invoked == 0 {
 			return st == 0 && !out.ROk, st
 		}
-		if in.SawOk != (st != 0) || (in.SawOk && in.SawOld != st) {
-			return false, st
+		if in.SawOk != (st != 0) || (in.SawOk && in.SawOld != st) || (!in.SawOk && in.Kind == KCompute && in.SawOld != 0) {
+			return false, st // (an absent key comes with the zero value)
 		}
 		switch in.Dec {
 		case DecWrite:
